@@ -1,5 +1,5 @@
 PROP = {
-    "thm": ["Umya.Thm.C06", "Umya.Thm.C06Codec"],
+    "thm": ["Umya.Thm.C06", "Umya.Thm.C06Codec", "Umya.Thm.C06Comment"],
     "harness": "c06",
     "level": "proof",
     "stateful": True,
@@ -22,7 +22,17 @@ PROP = {
                   "constructor and regenerated from the source on every run (C06_enum_tables, C06_enum_tables_match_source), four repaired defects each refuted for the unfixed model "
                   "(*_unfixed_fails) and three residual edge losses refuted and listed (C06_cf_blank_color_fails, C06_cf_empty_sqref_fails, C06_cf_no_rules_fails). Tie on every run: "
                   "the real <dataValidations>, <conditionalFormatting> and <dxfs> elements, parsed by the independent XML reader in the driver, are tree-equal to `write` of the value the "
-                  "harness set through the public API, the model reader on the real elements equals the reloaded getters, and a second generation ties the writer from a non-empty dxf table.",
+                  "harness set through the public API, the model reader on the real elements equals the reloaded getters, and a second generation ties the writer from a non-empty dxf table. "
+                  "Comments (third session, Umya/Model/AnnotComment.lean, Thm/C06Comment.lean): element-tree models of both comment parts - `<comments>` (authors, commentList, `<text>` as runs with opaque run "
+                  "properties, xml:space) and the VML part (frame, one v:shape per comment with style, x:MoveWithCells / x:SizeWithCells / x:Anchor / x:Row / x:Column / x:Visible) -, of both readers and of the "
+                  "comment_index loop. Proved for all inputs: the text codec (C06_comment_text_codec, over the character channel C06_comment_text_channel), both writers emit in list order (C06_comment_vml_order), "
+                  "save + reload returns the same comments in the same order with cell, author, text, style, anchor, flags and visibility for any number of well-formed comments on any cells in any insertion order "
+                  "(C06_comment_roundtrip up to C06_comment_norm; C06_comment_no_swap: same count, same cells, the comment found on cell k is the one that was there), the reader's loop is a zip of the comments with the "
+                  "shapes that have an x:Column for ANY two parts (C06_comment_join_is_zip) and is right when those shapes name the cells of commentList in order (C06_comment_join_valid); refuted and listed: a comment "
+                  "whose shape has no x:Column takes its successor's shape (C06_comment_no_column_target_fails). Tie on every run (`c06 cmt`): the real comments{n}.xml and vmlDrawing{n}.vml of 150 generated "
+                  "workbooks, lexed by the independent XML reader, are tree-equal to writeComments / writeVml of the values set through the public API and joinByPosition (readComments ..) (readVml ..) on the "
+                  "real trees equals the reloaded getters; `c06 cmtr`: the same reader-side comparison on every corpus file that has comments, where the harness also checks that each joined shape names its "
+                  "comment's cell (fails on three Excel-written files: known finding, reader defect). The <autoFilter> element (the struct holds the range only) has its codec theorem C06_auto_filter_codec.",
     "level_note": "Trusted: Lean kernel + 3 standard axioms; the hand model's faithfulness as exercised by the correspondence stream; quick-xml 0.37.5 escape / unescape / "
                   "trim_text / event splitting (modelled); fancy_regex on the is_address regex (hand matcher, tied behaviourally through the dnr lines); the harness dump "
                   "functions (annot_entries) and the zip crate. The *_unfixed_*_fails refutations concern a model of the code BEFORE the fixes, which no longer runs; it was "
@@ -39,7 +49,11 @@ PROP = {
                         "C06_codec_channel", "C06_dvcf_enum_tables", "C06_enum_tables_match_source", "C06_data_validation_codec", "C06_data_validations_roundtrip",
                         "C06_data_validations_positions", "C06_cf_dxf_table", "C06_cf_rule_codec", "C06_conditional_formatting_roundtrip", "C06_cf_formula_text",
                         "C06_dv_type_unfixed_fails", "C06_dv_formula_unfixed_fails", "C06_cf_dxf_hash_unfixed_fails", "C06_cf_iconset_unfixed_fails",
-                        "C06_cf_blank_color_fails", "C06_cf_empty_sqref_fails", "C06_cf_no_rules_fails"],
+                        "C06_cf_blank_color_fails", "C06_cf_empty_sqref_fails", "C06_cf_no_rules_fails",
+                        # comments: text, VML shapes, positional join; auto-filter element (Umya/Thm/C06Comment.lean)
+                        "C06_comment_text_channel", "C06_comment_text_codec", "C06_comment_vml_order", "C06_comment_roundtrip", "C06_comment_norm",
+                        "C06_comment_no_swap", "C06_comment_no_column_target_fails", "C06_comment_join_is_zip", "C06_comment_join_valid",
+                        "C06_auto_filter_codec"],
     "rule": "case = one workbook: 8 fixed witnesses (the repaired defects + the residual ones), N workbooks generated from a per-case seed by wb::gen_book with rich "
             "annotations (1-6 sheets, 0..40 hyperlinks with tooltips / location links to quoted sheets, 0..30 comments over a pool of authors incl. the empty one, 0..36 merges, "
             "0..14 data validations, 0..12 conditional formats x 1-3 rules, auto filter, tab colour argb/theme/indexed, panes + selections, page setup / margins / print options, "
@@ -51,12 +65,19 @@ PROP = {
             "constructor of both enums in turn, texts from the special-character alphabet with blanks at the ends, 0-5 ranges of all four shapes; 1-2 sheets x 0-4 blocks x 1-4 rules over a pool "
             "of 6 styles (incl. the hash-colliding pair), all 18/12/10/6 enum constructors, i32/u32 boundary values, scales with 0-3 cfvos / colours, formulas as text / bare area / sheet area "
             "on 9 sheet names; each saved, reloaded, saved again. Tie lines: `c06 dvs` per sheet with validations, `c06 cf` per package and per second generation. non-trivial = every tie "
-            "line; distinct = distinct request line",
+            "line; distinct = distinct request line. Comment cases: 3 witnesses (`c06 reset cmtw <id>`: no-column-target = C06_comment_no_column_target_fails, order = the "
+            "non-vacuity example of C06_comment_roundtrip, blank-holders = norm), N3 generated workbooks (`c06 reset cmt <seed>`, quick N3=150, thorough 1500): 1-2 sheets x 0-12 comments on distinct scattered cells "
+            "(columns to XFD, rows to 1048576) in random or reverse-sorted insertion order, authors from a pool of 8 incl. the empty one, text plain (specials, blanks / line breaks / U+3000 / NBSP at the ends, empty) "
+            "or rich (0-4 runs, fonts on two thirds), anchors default or explicit incl. 0 and u32::MAX, visibility hidden by style / visible with an empty x:Visible / x:Visible True or False, valued "
+            "MoveWithCells / SizeWithCells; one `c06 cmt` tie line per sheet with comments; every corpus file with a comments part (`c06 reset cmtf <file>`), one `c06 cmtr` line per sheet with comments",
     "trusted_base": TB_COMMON + [
         "C06 codecs: Umya/Spec/XmlLex.lean (the independent XML reader that parses the real elements in the driver); harness/src/c06codec.rs (specs written down while calling the "
         "setters, enum spellings copied from ECMA-376, getter views, the raw-element scanner `elements`); Umya/Driver/C06Codec.lean (spec parser, attribute-order-insensitive tree "
         "comparison, dxf signature); Rust f64 to_string / parse round trip for colour tints",
         "quick-xml 0.37.5: escape, partial_escape, unescape, trim_text, no text event for an empty text node (modelled in Umya/Model/XmlEsc.lean and Annot.lean)",
+        "C06 comments: harness/src/c06cmt.rs (getter view of a comment = the spec handed to the model and the observation after reload; locating the comments / VML part through the sheet's relationships); "
+        "Umya/Driver/C06Comment.lean (spec parser, projection of the real VML tree onto the modelled attributes / children, plugging the real <rPr> elements into the model value); trim_text(true) modelled on "
+        "decoded text (equal to the code unless a file spells white space at the ends of x:Anchor / x:Row / x:Column / x:Visible content as character references)",
         "fancy_regex on the is_address regex: hand-written matcher Umya.Annot.isAddress, tied by the dnr lines",
         "harness/src/wb.rs annot_entries (what counts as the observable state of each annotation kind); zip crate",
         "BTreeMap<String, _> iteration order = code-point lexicographic order of the coordinate text (Umya.Annot.walkOrder)",
@@ -70,6 +91,8 @@ PROP = {
         "areas of an address-valued defined name are cells or cell:cell ranges, columns <= ZZZ, rows < 2^32; other shapes take the verbatim-text path",
         "the written text of a defined name has no leading / trailing blank (C06_defined_name_channel: the reader trims text events); true of every printed area list, not proved",
         "every comment's author occurs in the authors table (it is built from the comments)",
+        "comments (WF of C06_comment_roundtrip): cell column in 1..18278 and row < 2^32; anchor fields and x:Row / x:Column values < 2^32 (the Rust field types); the authors table has fewer than 2^64 entries; "
+        "run properties, when present, are an element called rPr; every comment's shape has an x:Column target (what Comment::new_comment and the reader set); ObjectType is Note; the sheet has no OLE objects",
         "view / page / protection codecs: Coordinate column in 1..18278 and row < 2^32; sqref ranges of the four C17 shapes; u32 fields < 2^32; floats are opaque tokens with print-then-parse = id (Rust f64 Display / FromStr)",
     ],
     "partial_clauses": [
@@ -95,7 +118,14 @@ PROP = {
         
         
         
-        "comment text, VML shape anchors and the positional join of shapes to comments: harness oracle only",
+        "comments: text (plain = one run, rich = runs), style, anchor, x:Row / x:Column, x:Visible, x:MoveWithCells, x:SizeWithCells and the positional join are modelled and proved at the level of element trees "
+        "(Umya/Model/AnnotComment.lean, C06_comment_roundtrip / C06_comment_no_swap), tied by the `c06 cmt` / `c06 cmtr` lines. Limits: run properties are OPAQUE (the <rPr> element is carried verbatim; that "
+        "Font::set_attributes / write_to_rpr reproduce the font is the C05 font codec - here only observed by the harness oracle through a five-field font signature); the remaining attributes and children of "
+        "v:shape (type, fillcolor, o:insetmode, v:fill, v:shadow, v:path, v:textbox), x:AutoFill / x:CF / x:AutoPict and OLE-object shapes are projected away before trees are compared and are covered by "
+        "the general dump oracle only; the tree-level readers look at direct children and cannot tell <r/> or <x:Column/> (skipped by the code) from <r></r> / <x:Column></x:Column> (the library writes neither); "
+        "a comment built without new_comment has no x:Column and takes the next comment's shape (C06_comment_no_column_target_fails, known finding); loaded files whose note shapes are not in commentList "
+        "order are mis-paired by the positional join (outside validCommentParts; three corpus files, known finding, reader defect = C03 territory, not repaired)",
+        "auto filter: the struct holds the range only (C06_auto_filter_codec, C06_merge_roundtrip, `c06 range` lines); filter columns / criteria / sort state of a loaded file are not held by the library and are dropped on re-save (not a round-trip matter for values set through the API; C04 / C03 territory for loaded files)",
         "re-homing of defined names (localSheetId, or the sheet named in the first area) is observed through the dump (identity = name + scope), not modelled",
         "Worksheet::set_active_cell is not saved at all (known finding)",
         "workbooks whose localSheetId values no longer match the sheet order (after removing an earlier sheet) are outside the generator",
